@@ -696,6 +696,7 @@ func GenCase(r *rand.Rand, id int, o GenOpts) *Case {
 	// message
 	c.price = new(big.Int).Add(c.baseFee, big.NewInt(int64(g.pick(3))))
 	c.GasPrice = c.price.String()
+	extTop := false
 	switch x := g.pick(100); {
 	case x < 8:
 		c.to = nil // creation: init code = code of a generated contract followed by nothing
@@ -717,10 +718,14 @@ func GenCase(r *rand.Rand, id int, o GenOpts) *Case {
 	case x < 14:
 		t := EOA2
 		c.to = &t
-	case x < 18:
+	case x < 22:
 		t := ExtZone // plain transfer out of scope -> CreateETX at depth 0
+		if g.chance(30) {
+			t = ExtRegion
+		}
 		c.to = &t
-	case x < 21:
+		extTop = true
+	case x < 25:
 		t := QiLocal
 		c.to = &t
 	default:
@@ -737,6 +742,15 @@ func GenCase(r *rand.Rand, id int, o GenOpts) *Case {
 	c.value = big.NewInt(0)
 	if g.chance(40) {
 		c.value = new(big.Int).Mul(big.NewInt(int64(1+g.pick(10))), params.MinQuaiConversionAmount)
+	}
+	if extTop {
+		// top-level sends to another chain: mostly with value, often to a destination that is not eligible
+		if g.chance(60) && c.value.Sign() == 0 {
+			c.value = new(big.Int).Mul(big.NewInt(int64(1+g.pick(10))), params.MinQuaiConversionAmount)
+		}
+		if g.chance(30) {
+			c.Eligible = false
+		}
 	}
 	c.Value = c.value.String()
 	switch g.pick(10) {
